@@ -109,6 +109,7 @@ Spec == Init /\ [][Next]_vars
         o.ver   set of [path, kind]         versioned paths as a re-opened tree reports them
         o.left  BOOLEAN                     limbo / pending-deletion still hold something after finalize
         o.phase where the failing call was: "removal" | "insertion" | "deletion" | "cleanup" | NONE (no failure)
+                | "spontaneous" (apply raised although no fault was injected)
         w       Want(transform): pre / post disk, pre / post versioning, calls per phase
    The same text judges the model's terminal states (below) and the recorded real executions (TransformTrace). *)
 ObsDisk(f)   == {[path |-> o.at, kind |-> o.kind, c |-> IF o.kind = "file" THEN o.g ELSE "", t |-> IF o.kind = "file" THEN o.t ELSE ""]
